@@ -71,12 +71,14 @@ def check_codec(t: E.Tally, full: dict, label: str, deep: bool = True) -> list[s
             t.bad("C17:fragment-too-long", f"{label}: fragment {num} has {len(fr) // 2} bytes", rep)
     if deep:
         zidx = full["zone_idx"]
-        for num, fr in enumerate(frags, 1):
+        # every way the builder's docstring allows the zone / the hot water to be addressed
+        forms = ("HW", "FA", 0xFA) if zidx == "HW" else (zidx, int(zidx, 16))
+        for num, fr, addr in ((n_, f_, a_) for n_, f_ in enumerate(frags, 1) for a_ in forms):
             try:
-                cmd = Command.set_schedule_fragment(CTL, zidx, num, len(frags), fr)
+                cmd = Command.set_schedule_fragment(CTL, addr, num, len(frags), fr)
                 p = Message._from_cmd(cmd).payload
             except Exception as e:  # noqa: BLE001
-                t.bad(f"C17:write-command-rejected:{type(e).__name__}", f"{label}: fragment {num}/{len(frags)} ({len(fr) // 2} bytes): {type(e).__name__}: {str(e)[:120]}", rep)
+                t.bad(f"C17:write-command-rejected:{type(e).__name__}", f"{label}: fragment {num}/{len(frags)} ({len(fr) // 2} bytes) addressed as {addr!r}: {type(e).__name__}: {str(e)[:120]}", rep)
                 continue
             if p.get("frag_number") != num or p.get("total_frags") != len(frags) or p.get("fragment") != fr or p.get("frag_length") != len(fr) // 2:
                 t.bad("C17:write-command-decodes-differently", f"{label}: fragment {num}/{len(frags)} -> {p}", rep)
